@@ -457,12 +457,33 @@ class Sim:
 # generation
 # --------------------------------------------------------------------------------------
 def gen_param(rng, kind, p):
+    ps = _gen_param(rng, kind, p)
+    c = rng.random()
+    if ps is not None and c < 0.3:
+        # the same parameter values handed over in another valid form: Python lists
+        # instead of arrays, integers instead of floats where the value is integral
+        def relist(x):
+            if isinstance(x, dict) and "__arr__" in x and rng.random() < 0.7 and np.ndim(x["__arr__"]) == 1:
+                return list(x["__arr__"])
+            if isinstance(x, dict) and "__tuple__" in x:
+                return {"__tuple__": [relist(v) for v in x["__tuple__"]]}
+            if isinstance(x, float) and float(x).is_integer() and rng.random() < 0.5:
+                return int(x)
+            return x
+
+        ps = relist(ps)
+    return ps
+
+
+def _gen_param(rng, kind, p):
     mode = int(rng.integers(0, 4))
     if mode == 0:
         return None
     big = float(rng.choice([1, 1, 100]))
     if mode == 1:
         m = round(float(rng.normal() * big), 3)
+        if rng.random() < 0.3:
+            m = float(round(m))
     else:
         m = {"__arr__": [round(float(v), 3) for v in rng.normal(size=p) * big], "dtype": "float64"}
     if kind == "l2":
